@@ -2,6 +2,6 @@ CONSTANTS NodeId = 5  HbInit = 0  Walk = FALSE  WalkLen = 0  EvCap = 3  PoolN = 
 CONSTANT Letters <- L11  HcInit <- HC11  ProbeLetters <- P11
 INIT Init
 NEXT Next
-VIEW View
+VIEW ViewM
 CONSTRAINT Bound
 INVARIANTS InvC09 InvC10 InvC11 InvC20
